@@ -520,6 +520,8 @@ class Engine:
             return v
         if v is None:
             return False
+        if is_sym(v) and z3.is_string(v):
+            return z3.Length(v) > 0
         if is_sym(v):
             return v != self.lift(0)
         if isinstance(v, SBytes):
